@@ -136,6 +136,7 @@ def profile_a(info):
             'QXmppConfiguration::credentialData/0': ('expr', '({v0}).credentials'),
             # repository callees
             'fn:fromString/1': fromstring_rule,
+            'fn:isMechanismAvailable/2': ('callee', 'QXmppSaslClient_isMechanismAvailable'),   # direct call: through the contract verified for the real function
             'fnptr:fromString:std::optional<SaslMechanism> (QStringView)': ('calleeret', 'SaslMechanism_fromString', 'OptSaslMechanism'),
             'fnptr:isMechanismAvailable:bool (SaslMechanism,Credentials)': ('callee', 'QXmppSaslClient_isMechanismAvailable', 'bool'),
         },
@@ -363,7 +364,7 @@ def build(work, tier):
     # ---- chooseMechanism
     c = head_a + FROMSTRING_A + ba.prototype(t_av) + t_ch + '''
 void h_choose(void) { SaslMechanism pm; g_probe = pm; g_i = nondet_long(); gh_src = 0;
-  Credentials gc; gh_creds = gc; qstr w, pf; gh_wit = w; gh_pref = pf; gh_n = nondet_long(); gh_d = 0;
+  Credentials gc; gh_creds = gc; qstr w, pf; gh_wit = w; gh_pref = pf; gh_n = nondet_long(); gh_d = 0; gh_found = false;
   ChooseResult *r; const QXmppConfiguration *c; const QStrList *l; chooseMechanism(r, c, l); }
 '''
     f = ba.write('choose.c', c)
@@ -406,7 +407,7 @@ void h_choose(void) { SaslMechanism pm; g_probe = pm; g_i = nondet_long(); gh_sr
     UNW = 26
     GM = 'SaslMechanism gm; g_m = gm; '
 
-    def proof_b(pid, body, harness, entry, enforce, spec, replace=(), note='', defines=('FINDING_EXCLUDED',), finding=None):
+    def proof_b(pid, body, harness, entry, enforce, spec, replace=(), note='', defines=(), finding=None):
         c = head_b + body + '\n' + harness + '\n'
         f = bb.write(pid + '.c', c)
         typecheck(f)
@@ -422,9 +423,6 @@ void h_choose(void) { SaslMechanism pm; g_probe = pm; g_i = nondet_long(); gh_sr
                        'h_fs_scram', 'SaslScramMechanism_fromString', sp['fromString_scram'])
     alltext += proof_b('fromString_ht', t_fs_ht, 'void h_fs_ht(void) { %sOptHt *r; qsv s; SaslHtMechanism_fromString(r, s); }' % GM,
                        'h_fs_ht', 'SaslHtMechanism_fromString', sp['fromString_ht'])
-    proof_b('fromString_ht.two_hash_names_in_a_row', t_fs_ht, 'void h_fs_ht(void) { %sOptHt *r; qsv s; SaslHtMechanism_fromString(r, s); }' % GM,
-            'h_fs_ht', 'SaslHtMechanism_fromString', sp['fromString_ht'], defines=('FINDING_ONLY',), finding='C05-ht-garbled-name',
-            note='restricted to the input class of finding C05-ht-garbled-name ("HT-" + hash name + later hash name ...)')
     alltext += proof_b('fromString', bb.prototype(t_fs_scram) + bb.prototype(t_fs_ht) + t_into_scram + '\n' + t_into_ht + '\n' + t_fs,
                        'void h_fs(void) { %sOptSaslMechanism *r; qsv s; SaslMechanism_fromString(r, s); }' % GM,
                        'h_fs', 'SaslMechanism_fromString', sp['fromString'], replace=['SaslScramMechanism_fromString', 'SaslHtMechanism_fromString'])
@@ -465,7 +463,10 @@ void h_choose(void) { SaslMechanism pm; g_probe = pm; g_i = nondet_long(); gh_sr
             'A-STR-ATTR: in chooseMechanism / isMechanismAvailable strings are opaque values carrying the two facts the code can learn about them: SaslMechanism::fromString(s) and membership in the '
             'disabled list; SaslMechanism::fromString is used there through a contract (deterministic function of the string; a recognised name gives a valid mechanism value) whose content is proved '
             'for the real function on concrete strings in the same run',
-            'A-QLIST: QList<QString>::contains is the membership predicate, push_back appends (only the length of disabledAvailable is represented)',
+            'A-QLIST: QList<QString>::contains on the disabled list is the string\'s attribute; on the offered list it is membership by witnesses (true => an index holding an equal string, '
+            'remembered as a possible source of the result; false => the element at the witness index differs); push_back appends (only the length of disabledAvailable is represented); '
+            'attributes are functions of the string and fromString is injective on recognised names (assumed for the witness element and the preferred name; injectivity is proved in this run)',
+            'a direct call of QXmppSaslClient::isMechanismAvailable inside chooseMechanism enters through the contract verified for the real function (as the std::bind stage does)',
             'A-CONFIG: QXmppConfiguration::disabledSaslMechanisms / saslAuthMechanism / credentialData are pure getters of the stored values (not lowered)',
             'A-QSV / A-QSTRING (units/C05/model_b.h): QStringView ==, startsWith (non-empty needle, case sensitive), mid(pos) with Qt 5.15 clamping, size; u"..."_s and QStringBuilder operator+ '
             'concatenate UTF-16 code units; results of toString fit 24 code units (else MODEL-LIMIT)',
@@ -486,7 +487,6 @@ void h_choose(void) { SaslMechanism pm; g_probe = pm; g_i = nondet_long(); gh_sr
             'the bytes of <auth/> / <authenticate/> (serializeXml) and the first response (C06)',
             'FastTokenManager::onSasl2Authenticate (which token mechanism is REQUESTED for later use) and the call sites of the two authenticate functions in QXmppOutgoingClient',
             'the order among the legacy X- mechanisms and between SCRAM-SHA-512 and SCRAM-SHA3-512 (same digest length): the property does not fix it',
-            'SaslMechanism::fromString (top level) on the input class of finding C05-ht-garbled-name ("HT-" + two hash names ...): excluded by precondition there, reported at SaslHtMechanism::fromString',
             'a comparator other than the default in std::ranges::max, or a renamed local named by the loop contract: exit 2 (tool limit), not a verdict',
         ],
         'explanation': 'chooseMechanism is lowered from the AST clang 16 produces (fully typed); the std::views pipeline is turned into one loop by the named rule views:pipeline '
